@@ -204,11 +204,15 @@ func init() {
 			return "crash"
 		}
 		if code != 0 {
-			if strings.Contains(errText, "Cannot apply --now flag") {
-				return "err uncloseable"
-			}
-			if strings.Contains(errText, "SYNTAX ERROR") {
+			if _, _, errs := parser.NewSerialParser().Parse(text); errs != nil {
 				return "invalid"
+			}
+			if a[5] == "1" {
+				// refused --now: the same command without --now ends differently (told by behaviour, not by the message)
+				c2, _, e2 := runSafely(e, append(args[:len(args)-1:len(args)-1], f)...)
+				if c2 != code || e2 != errText {
+					return "err uncloseable"
+				}
 			}
 			return "fail " + strconv.Itoa(code) + " " + hx(errText)
 		}
